@@ -84,5 +84,10 @@ CHECKS = {
    text='Interpreter entry: r1 = metadata buffer / packet / 0, r10 = stack top, other registers 0. Wrappers of the 4 VM kinds x 3 engines: the buffers, lengths, null-for-empty packet pointer and offsets handed to each engine are the documented ones for every packet and configuration; '
         'EbpfVmFixedMbuff writes exactly (buffer+data_offset := packet start) and (buffer+data_end_offset := packet end) under the interpreter and Cranelift. JIT prologues (mbuff, raw/no-data, fixed x 3 offset pairs): r1, r10 = top of a reserved 512-byte area, packet pointer kept for ld_abs, the two stores of the fixed variant. Cranelift prelude: r1 select, r10, 512-byte slot. Native probes confirm through the public API.',
    note='Trusted: rustc MIR, x86/CLIF semantics tables, z3. Offsets <= 2^40; non-overlapping offsets (statement); the empty-metadata-buffer case of the metadata VM is not claimed. Native probes are confirmation only.'),
+ 'C10': dict(level='model_checking', engine='mirsym', design_ref='DESIGN.md 5/C10',
+   technique='inductive step over API histories: symbolic execution of the MIR of each VM method in src/lib.rs from an arbitrary VM state (self = lazily materialised symbolic struct), verifier/validator/compilers/engines as argument-recording stubs with arbitrary results; frame and post-state obligations',
+   text='For set_program, set_verifier, jit_compile, cranelift_compile, execute_program, execute_program_jit, execute_program_cranelift on each of the 4 VM kinds (std and cranelift builds): an Err result leaves every field of the VM untouched; Ok(set_program) stores exactly the new program, after the verifier in force accepted it, and drops the compiled artefacts of the previous program; '
+        'set_verifier runs the new verifier on the loaded program before installing it; the compilers compile the loaded program; no method panics; executing with no program is an error. Findings are replayed as short constructive histories through the public API.',
+   note='One call from an arbitrary state (no history bound). Stubs as listed in evidence; HashMap/HashSet updates opaque. Trusted: rustc MIR, z3.'),
 }
 NOT_APPLICABLE = {}
